@@ -1,5 +1,16 @@
 package main
 
+import (
+	"encoding/json"
+	"flag"
+	"fmt"
+	"os"
+	"path/filepath"
+	"strings"
+	"sync"
+	"time"
+)
+
 // tryGoReplay builds an in-package Go test from a solver model and runs it on the real code.
 func tryGoReplay(prop string, o *Obl, inputs map[string]string, dir, name string) (file string, confirmed bool, note string) {
 	return "", false, ""
@@ -7,4 +18,202 @@ func tryGoReplay(prop string, o *Obl, inputs map[string]string, dir, name string
 
 func runGoReplay(file string) (bool, string) { return false, "" }
 
-func cmdSelftest(args []string) int { return 0 }
+// ---- must-fail corpus ----
+
+type Mutant struct {
+	Name   string `json:"name"`
+	File   string `json:"file"`
+	Old    string `json:"old"`
+	New    string `json:"new"`
+	Nth    int    `json:"nth,omitempty"`    // which occurrence of Old (1-based); 0 = must be unique
+	Expect string `json:"expect"`           // "fail" (a named obligation must fail) or "pass" (harmless control)
+	Kills  string `json:"kills,omitempty"`  // substring of an obligation name expected to fail
+	Note   string `json:"note,omitempty"`
+}
+
+type mutantResult struct {
+	m       Mutant
+	ok      bool
+	detail  string
+	failed  []string
+	elapsed float64
+}
+
+func applyMutant(m Mutant) (map[string][]byte, error) {
+	path := filepath.Join(repoDir, m.File)
+	b, err := os.ReadFile(path)
+	if err != nil {
+		return nil, err
+	}
+	s := string(b)
+	n := strings.Count(s, m.Old)
+	if n == 0 {
+		return nil, fmt.Errorf("old text not found in %s", m.File)
+	}
+	if m.Nth == 0 && n != 1 {
+		return nil, fmt.Errorf("old text occurs %d times in %s (set nth)", n, m.File)
+	}
+	idx := -1
+	if m.Nth == 0 {
+		idx = strings.Index(s, m.Old)
+	} else {
+		pos := 0
+		for k := 0; k < m.Nth; k++ {
+			i := strings.Index(s[pos:], m.Old)
+			if i < 0 {
+				return nil, fmt.Errorf("occurrence %d of old text not found in %s", m.Nth, m.File)
+			}
+			idx = pos + i
+			pos = idx + len(m.Old)
+		}
+	}
+	ns := s[:idx] + m.New + s[idx+len(m.Old):]
+	return map[string][]byte{path: []byte(ns)}, nil
+}
+
+func cmdSelftest(args []string) int {
+	fs := flag.NewFlagSet("selftest", flag.ExitOnError)
+	prop := fs.String("prop", "", "property id (default: all with a corpus)")
+	only := fs.String("only", "", "substring filter on mutant names")
+	jobs := fs.Int("j", 4, "parallel mutants")
+	fs.Parse(args)
+	plans, err := loadPlans()
+	if err != nil {
+		fmt.Fprintln(os.Stderr, err)
+		return 2
+	}
+	var props []string
+	if *prop != "" {
+		props = []string{*prop}
+	} else {
+		ms, _ := filepath.Glob(filepath.Join(verifDir, "selftest", "*.json"))
+		for _, m := range ms {
+			props = append(props, strings.TrimSuffix(filepath.Base(m), ".json"))
+		}
+	}
+	bad := 0
+	total := 0
+	for _, p := range props {
+		b, err := os.ReadFile(filepath.Join(verifDir, "selftest", p+".json"))
+		if err != nil {
+			fmt.Fprintln(os.Stderr, err)
+			return 2
+		}
+		var muts []Mutant
+		if err := json.Unmarshal(b, &muts); err != nil {
+			fmt.Fprintln(os.Stderr, p, err)
+			return 2
+		}
+		plan := plans[p]
+		if plan == nil {
+			fmt.Fprintln(os.Stderr, "no plan for", p)
+			return 2
+		}
+		results := make([]mutantResult, len(muts))
+		var wg sync.WaitGroup
+		sem := make(chan struct{}, *jobs)
+		for i, m := range muts {
+			if *only != "" && !strings.Contains(m.Name, *only) {
+				continue
+			}
+			wg.Add(1)
+			sem <- struct{}{}
+			go func(i int, m Mutant) {
+				defer wg.Done()
+				defer func() { <-sem }()
+				start := time.Now()
+				r := mutantResult{m: m}
+				ov, err := applyMutant(m)
+				if err != nil {
+					r.detail = "cannot apply: " + err.Error()
+					results[i] = r
+					return
+				}
+				prog, err := LoadProgram(repoDir, plan.Pkgs, ov)
+				if err != nil {
+					r.detail = "mutant does not compile: " + firstLine(err.Error())
+					results[i] = r
+					return
+				}
+				out := runPropertyIn(prog, p, "quick", "", filepath.Join(verifDir, "work", "selftest", p, sanitizeFile(m.Name)))
+				for _, o := range out.Obls {
+					if o.Expect == "sat" || o.Result == nil {
+						continue
+					}
+					if o.Result.Status != "unsat" {
+						r.failed = append(r.failed, o.Name)
+					}
+				}
+				for _, u := range out.Undecided {
+					r.failed = append(r.failed, "UNDECIDED:"+u)
+				}
+				switch m.Expect {
+				case "pass":
+					r.ok = len(r.failed) == 0
+					if !r.ok {
+						r.detail = "false alarm on harmless change"
+					}
+				default:
+					r.ok = len(r.failed) > 0
+					if r.ok && m.Kills != "" {
+						hit := false
+						for _, f := range r.failed {
+							if strings.Contains(f, m.Kills) {
+								hit = true
+							}
+						}
+						if !hit {
+							r.detail = "killed, but not by the expected obligation " + m.Kills
+						}
+					}
+					if !r.ok {
+						r.detail = "SURVIVED"
+					}
+				}
+				r.elapsed = time.Since(start).Seconds()
+				results[i] = r
+			}(i, m)
+		}
+		wg.Wait()
+		for _, r := range results {
+			if r.m.Name == "" {
+				continue
+			}
+			total++
+			st := "ok  "
+			if !r.ok {
+				st = "BAD "
+				bad++
+			}
+			fl := ""
+			if len(r.failed) > 0 {
+				fl = " killed-by=" + strings.Join(shortNames(r.failed, 3), ",")
+			}
+			fmt.Printf("%s %s/%s expect=%s %s%s (%.0fs)\n", st, p, r.m.Name, r.m.Expect, r.detail, fl, r.elapsed)
+		}
+	}
+	os.RemoveAll(filepath.Join(verifDir, "work", "selftest"))
+	fmt.Printf("selftest: %d mutants, %d not as expected\n", total, bad)
+	if bad > 0 {
+		return 3
+	}
+	return 0
+}
+
+func shortNames(xs []string, n int) []string {
+	var out []string
+	for i, x := range xs {
+		if i >= n {
+			out = append(out, fmt.Sprintf("+%d more", len(xs)-n))
+			break
+		}
+		if j := strings.Index(x, "#"); j >= 0 {
+			k := strings.LastIndex(x[:j], ".")
+			if k >= 0 {
+				x = x[k+1:]
+			}
+		}
+		out = append(out, x)
+	}
+	return out
+}
